@@ -351,6 +351,75 @@ theorem C19_nameprovider_no_underread (offs : List Nat) (index k : Nat)
   · simp only [Option.some.injEq] at h; omega
   · simp at h
 
+/-- offsets produced by the scan never point behind the data: line starts, and the end of the last reported name + 1 -/
+theorem scanNames_bounds : ∀ (data : List Char) (pos start : Nat) (cr : Bool) (acc : List Nat) (last : Nat × Nat)
+    (offs : List Nat) (fin : Nat × Nat),
+    scanNames data pos start cr acc last = some (offs, fin) →
+    start ≤ pos → (∀ o ∈ acc, o ≤ pos) → (acc ≠ [] → last.1 + last.2 + 1 ≤ pos) →
+    (∀ o ∈ offs, o ≤ pos + data.length) ∧ (offs ≠ [] → fin.1 + fin.2 + 1 ≤ pos + data.length) := by
+  intro data
+  induction data with
+  | nil =>
+    intro pos start cr acc last offs fin h hs hacc hlast
+    simp only [scanNames] at h
+    split at h
+    · simp only [Option.some.injEq, Prod.mk.injEq] at h
+      obtain ⟨h1, h2⟩ := h
+      subst h1 h2
+      refine ⟨fun o ho => by simpa using hacc o (by simpa using ho), fun hne => ?_⟩
+      simpa using hlast (by intro h0; apply hne; simp [h0])
+    · simp at h
+  | cons c cs ih =>
+    intro pos start cr acc last offs fin h hs hacc hlast
+    simp only [scanNames] at h
+    split at h
+    · have := ih (pos + 1) (pos + 1) false (start :: acc) _ offs fin h (Nat.le_refl _)
+        (fun o ho => by
+          rcases List.mem_cons.mp ho with h1 | h1
+          · omega
+          · have := hacc o h1; omega)
+        (fun _ => by simp only; omega)
+      simp only [List.length_cons]
+      exact ⟨fun o ho => by have := this.1 o ho; omega, fun hne => by have := this.2 hne; omega⟩
+    · have := ih (pos + 1) start _ acc last offs fin h (by omega)
+        (fun o ho => by have := hacc o ho; omega) (fun hne => by have := hlast hne; omega)
+      simp only [List.length_cons]
+      exact ⟨fun o ho => by have := this.1 o ho; omega, fun hne => by have := this.2 hne; omega⟩
+
+/-- **the CR test of `NameProvider::name` reads inside the file**: for the offsets produced by reading `data`, every byte
+index inspected by the Windows line-end test is a valid index of `data` (together with `C19_nameprovider_no_underread`:
+between the start of the name and the end of the buffer) -/
+theorem C19_nameprovider_reads_in_buffer (data : List Char) (offs : List Nat) (h : readNamesFile data = .ok offs)
+    (index k : Nat) (hi : index + 1 < offs.length) (hk : winTestIdx offs index = some k) : k < data.length := by
+  unfold readNamesFile at h
+  split at h
+  · simp at h
+  · rename_i starts ld lsz hscan
+    simp only [ReadRes.ok.injEq] at h
+    have hb := scanNames_bounds data 0 0 false [] (0, 0) starts (ld, lsz) hscan (Nat.le_refl _) (fun o ho => by simp at ho) (fun hne => absurd rfl hne)
+    simp only [Nat.zero_add] at hb
+    have hne : starts ≠ [] := by
+      intro h0; subst h0; subst h; simp at hi
+    have hall : ∀ o ∈ offs, o ≤ data.length := by
+      intro o ho
+      rw [← h] at ho
+      rcases List.mem_append.mp ho with h1 | h1
+      · exact hb.1 o h1
+      · simp only [List.mem_singleton] at h1
+        have := hb.2 hne
+        omega
+    have hmem : offs.getD (index + 1) 0 ∈ offs := by
+      rw [List.getD_eq_getElem?_getD, List.getElem?_eq_getElem hi]
+      simp
+    have hle := hall _ hmem
+    simp only [winTestIdx] at hk
+    split at hk
+    · simp only [Option.some.injEq] at hk; omega
+    · simp at hk
+
+/-- non-vacuity: a CRLF file; the CR test of the first name inspects byte 1 (the `\\r`), inside the 5 bytes -/
+example : readNamesFile "x\r\ny\n".toList = .ok [0, 3, 5] ∧ winTestIdx [0, 3, 5] 0 = some 1 := by decide
+
 /-! ### generic names -/
 
 theorem C19_generic_names_nonempty (stub : Name) (k : Nat) : genericName stub k ≠ [] := by
@@ -649,6 +718,79 @@ theorem C19_gen_linkRules :
        ("One2ManyLink", "inherits Many2ManyLink"), ("RangeCon2Slack", "inherits BasicStaticIndivEntryLink")] ∧
     Gen.C19Names.distrLoops = [(0, "ir1"), (1, "ir2")] ∧ Gen.C19Names.copyDirection = "first->second" := by
   decide
+
+/-! ### translator tie for the line scanner `internal::ReadNames` + `NameHandler::OnName` + the end pointer -/
+
+/-- the scan loop run with the generated step function (`fuel` = `end - ptr`): `OnName` appends the name's start offset
+to `names_` and remembers the name as the last one -/
+def genScan (data : List Char) : Nat → Nat → Nat → Bool → Nat → List Nat → Nat × Nat → Option (List Nat × (Nat × Nat))
+  | 0, ptr, start, _, _, acc, last =>
+    if Gen.C19Names.readNamesMissingNewline start ptr then none else some (acc.reverse, last)
+  | n + 1, ptr, start, cr, line, acc, last =>
+    match Gen.C19Names.readNamesStep data ptr start cr line with
+    | (some nm, start', cr', line') => genScan data n (ptr + 1) start' cr' line' (nm.1 :: acc) nm
+    | (none, start', cr', line') => genScan data n (ptr + 1) start' cr' line' acc last
+
+theorem scan_eq_gen (data : List Char) : ∀ (n ptr start : Nat) (cr : Bool) (line : Nat) (acc : List Nat) (last : Nat × Nat),
+    ptr + n = data.length →
+    scanNames (data.drop ptr) ptr start cr acc last = genScan data n ptr start cr line acc last := by
+  intro n
+  induction n with
+  | zero =>
+    intro ptr start cr line acc last h
+    have hd : data.drop ptr = [] := List.drop_eq_nil_of_le (by omega)
+    rw [hd]
+    simp only [scanNames, genScan, Gen.C19Names.readNamesMissingNewline]
+    by_cases hs : start = ptr <;> simp [hs]
+  | succ n ih =>
+    intro ptr start cr line acc last h
+    have hlt : ptr < data.length := by omega
+    have hd : data.drop ptr = data[ptr] :: data.drop (ptr + 1) := List.drop_eq_getElem_cons hlt
+    have hg : data.getD ptr (Char.ofNat 32) = data[ptr] := by simp [List.getD_eq_getElem?_getD, hlt]
+    have c13 : Char.ofNat 13 = '\r' := rfl
+    have c10 : Char.ofNat 10 = '\n' := rfl
+    rw [hd]
+    simp only [scanNames, genScan, Gen.C19Names.readNamesStep, hg, c13, c10]
+    by_cases hr : data[ptr] = '\r'
+    · have hn : ¬ data[ptr] = '\n' := by rw [hr]; decide
+      simp only [hr, beq_self_eq_true, if_true]
+      have hb : ('\r' == '\n') = false := by decide
+      simp only [hb, Bool.false_eq_true, if_false, Bool.or_true, decide_true]
+      have : ¬ ('\r' = '\n') := by decide
+      simp only [this, if_false]
+      exact ih (ptr + 1) start true line acc last (by omega)
+    · have hb : (data[ptr] == '\r') = false := by simpa using hr
+      simp only [hb, Bool.false_eq_true, if_false]
+      by_cases hn : data[ptr] = '\n'
+      · simp only [hn, beq_self_eq_true, if_true]
+        have : decide ('\n' = '\r') = false := by decide
+        simp only [this, Bool.or_false]
+        exact ih (ptr + 1) (ptr + 1) false (line + 1) (start :: acc) _ (by omega)
+      · have hb2 : (data[ptr] == '\n') = false := by simpa using hn
+        simp only [hb2, Bool.false_eq_true, if_false, hn]
+        have : decide (data[ptr] = '\r') = false := by simpa using hr
+        simp only [this, Bool.or_false]
+        exact ih (ptr + 1) start cr line acc last (by omega)
+
+/-- `readNamesFile` (hand model of the names-file scan) is the translated loop of `internal::ReadNames`
+(include/mp/nl-reader.h) started in its translated initial state, followed by the translated missing-newline test and the
+translated end pointer of `NameProvider::ReadNames` (src/nl-reader.cc) -/
+theorem C19_gen_readNames (data : List Char) :
+    readNamesFile data =
+      match genScan data data.length 0 0 Gen.C19Names.readNamesInit.1 Gen.C19Names.readNamesInit.2 [] (0, 0) with
+      | none => ReadRes.missingNewline
+      | some (offs, (ld, lsz)) => ReadRes.ok (offs ++ [Gen.C19Names.lastPtr ld lsz]) := by
+  have h := scan_eq_gen data data.length 0 0 Gen.C19Names.readNamesInit.1 Gen.C19Names.readNamesInit.2 [] (0, 0) (by simp)
+  simp only [List.drop_zero] at h
+  unfold readNamesFile
+  have hi : Gen.C19Names.readNamesInit.1 = false := rfl
+  rw [hi] at h
+  rw [h, hi]
+  cases genScan data data.length 0 0 false Gen.C19Names.readNamesInit.2 [] (0, 0) with
+  | none => rfl
+  | some r =>
+    obtain ⟨offs, ld, lsz⟩ := r
+    simp [Gen.C19Names.lastPtr, Nat.add_assoc]
 
 /-! ### translator ties for the registration API: `~AutoLinkScope` and `FlatConverter::AutoLink` -/
 
